@@ -9,6 +9,7 @@
 // 4096, cuts around every newline and inside every multi-byte character) x reader buffer sizes (1, 2, 3, 16, 8192) x
 // writer pauses (none / 1 ms); the reader asks for exactly as many lines as will ever be completed.  Start position:
 // FollowFileExecutor (standard output captured) with and without --head on files that do / do not end in a newline at start-up.
+// Also: a writer that stalls for 0.7 s / 1.5 s in the middle of a line.
 include!("verif_grid_common.rs");
 use std::io::{BufReader, Read};
 use std::sync::mpsc;
@@ -41,7 +42,7 @@ fn follow(content: &[u8], cuts: &[usize], capacity: usize, pause_ms: u64) -> Res
         }
     }
     let mut got = Vec::new();
-    for _ in 0..n { match rx.recv_timeout(Duration::from_secs(20)) { Ok(l) => got.push(l), Err(_) => break } }
+    for _ in 0..n { match rx.recv_timeout(Duration::from_secs(if got.is_empty() { 20 } else { 3 })) { Ok(l) => got.push(l), Err(_) => break } }
     let _ = std::fs::remove_file(&path);
     if got.len() == n { let _ = reader.join(); }
     let shorten = |v: &Vec<String>| v.iter().map(|l| short(l)).collect::<Vec<_>>();
@@ -144,6 +145,28 @@ fn verif_grid() {
                 }
             }
         }
+    }
+    // a writer that stalls in the middle of a line for longer than any polling interval: the line is delivered whole, once
+    for (i, stall_ms) in [700u64, 1500].iter().enumerate() {
+        let stall = *stall_ms;
+        g.case(&format!("stalled-writer-{}", i), move || {
+            let path = temp_path("follow");
+            File::create(&path).unwrap();
+            let reader_file = File::open(&path).unwrap();
+            let (tx, rx) = mpsc::channel::<String>();
+            let reader = std::thread::spawn(move || { let mut it = FollowFileIterator::new(BufReader::new(reader_file)); for _ in 0..3 { match it.next() { Some(l) => { if tx.send(l).is_err() { return; } }, None => return } } });
+            let append = |bytes: &[u8]| { let mut f = std::fs::OpenOptions::new().append(true).open(&path).unwrap(); f.write_all(bytes).unwrap(); };
+            append(b"first\nsec");
+            std::thread::sleep(Duration::from_millis(stall));
+            append(b"ond\n");
+            std::thread::sleep(Duration::from_millis(stall));
+            append(b"third\n");
+            let mut got = Vec::new();
+            for _ in 0..3 { match rx.recv_timeout(Duration::from_secs(10)) { Ok(l) => got.push(l), Err(_) => break } }
+            let _ = std::fs::remove_file(&path);
+            if got.len() == 3 { let _ = reader.join(); }
+            if got == vec!["first".to_owned(), "second".to_owned(), "third".to_owned()] { Ok(()) } else { Err(format!("`first\\nsec`, a pause of {} ms, `ond\\n`, a pause, `third\\n`: delivered {:?}", stall, got)) }
+        });
     }
     // start position (FollowFileExecutor::new takes it): without --head only what is appended afterwards, with --head everything
     for (i, (initial, head)) in [("old1\nold2\n", false), ("old1\nold2", false), ("", false), ("old1\nold2\n", true), ("old1\nold2", true), ("", true)].iter().enumerate() {
